@@ -383,15 +383,15 @@ where
     }
     let kind = [Kind::Full, Kind::Pos, Kind::Neg, Kind::FromRect, Kind::RmsDet][src.cfg("detector", 0, 4, |r| r.range(0, 4)) as usize];
     let adaptor = kind != Kind::Neg && kind != Kind::FromRect && src.cfg("adaptor", 0, 1, |r| r.chance(1, 3) as i64) == 1;
-    let window = src.cfg("rms_window", 1, 32, |r| r.range(1, 32)) as usize;
+    let window = src.cfg("rms_window", 1, 260, |r| if r.chance(1, 10) { *r.pick(&[63i64, 64, 65, 100, 128, 256]) } else { r.range(1, 32) }) as usize;
     let attack = i2f(src.cfg("attack", i64::MIN, i64::MAX, |r| f2i(draw_time(r) as f64))) as f32;
     let release = i2f(src.cfg("release", i64::MIN, i64::MAX, |r| f2i(draw_time(r) as f64))) as f32;
     let ok_time = |t: f32| t.is_finite() && t >= 0.0;
     let attack = if ok_time(attack) { attack } else { 1.0 };
     let release = if ok_time(release) { release } else { 1.0 };
-    let end = src.cfg("src_len", -1, 200, |r| if r.bool() { -1 } else { r.range(0, 200) });
+    let end = src.cfg("src_len", -1, 5000, |r| if r.bool() { -1 } else { r.range(0, 200) });
     let end = if end < 0 || !adaptor { None } else { Some(end as u64) };
-    let steps = src.cfg("steps", 1, 200, |r| r.range(1, 200)) as usize;
+    let steps = src.cfg("steps", 1, 5000, |r| if r.chance(1, 50) { r.range(1000, 5000) } else { r.range(1, 200) }) as usize;
     let shape = src.cfg("shape", 0, 4, |r| r.range(0, 4));
     if kind == Kind::RmsDet {
         obs.probe(P_RMS_DETECTOR);
@@ -534,7 +534,13 @@ where
                     obs.note_f64(*v);
                 }
                 check_frame::<F>(&mut m, &x, &got, out_lsb, out_eps, obs)?;
-                obs.state((kind as u64) << 8 | (m.last_dir[0] + 1) as u64, op.k);
+                let tclass = |t: f32| if t == 0.0 { 0u64 } else if t < 2.0 { 1 } else if t < 1e4 { 2 } else { 3 };
+                let gap = m.last_gap[0];
+                let gclass = if gap == 0.0 { 0u64 } else if gap < 1e-3 { 1 } else { 2 };
+                obs.state(
+                    (kind as u64) << 12 | (adaptor as u64) << 11 | (F::IS_FLOAT as u64) << 10 | tclass(m.attack) << 8 | tclass(m.release) << 6 | gclass << 4 | (m.last_dir[0] + 1) as u64,
+                    op.k,
+                );
             }
             O_SET_ATTACK | O_SET_RELEASE => {
                 let v = i2f(op.a) as f32;
@@ -653,7 +659,7 @@ impl Scenario for EnvelopeScenario {
     }
     fn runs(&self, tier: &str) -> u64 {
         if tier == "quick" {
-            200_000
+            500_000
         } else {
             20_000_000
         }
